@@ -121,8 +121,11 @@ def check_unit(ctx):
             _check_nan_fallback(ctx, func, call, err)
             err = _strip_wrappers(err)
             branches = [err]
+            exp_guard = {}
             if isinstance(err, ast.IfExp):
                 branches = [err.body, err.orelse]
+                # `A if <both keys present> else B`: the test guards A
+                exp_guard[id(err.body)] = err.test
             for branch in branches:
                 inner = _strip_wrappers(branch)
                 sig_subs = [s for s in ast.walk(inner) if _sigma_key(s)]
@@ -135,9 +138,9 @@ def check_unit(ctx):
                 # pass-through of an absolute sigma: allowed only where both
                 # 'sigma' and 'sigma%' exist
                 if isinstance(inner, ast.Subscript) and _sigma_key(inner):
-                    guard = None
+                    guard = exp_guard.get(id(branch))
                     cur = call
-                    while parents.get(id(cur)) is not None:
+                    while guard is None and parents.get(id(cur)) is not None:
                         par = parents[id(cur)]
                         if isinstance(par, ast.If) and any(
                                 cur is s or cur in list(ast.walk(s))
